@@ -321,3 +321,47 @@ def result_digest(s, prob=None):
     lz = s.log_z
     scal = np.array([np.nan if lz is None else lz, s.n_eff, float(s.n_like)], dtype=float)
     return digest_arrays(*arrays, scal)
+
+
+def sampling_state_digest(s):
+    """Digest of everything in a Sampler that determines what it draws next: generator states, proposal caches and
+    draw counters of every bound (recursively), plus the stored arrays. Writing a checkpoint must leave it unchanged."""
+    import json
+    h = hashlib.sha256()
+    seen = set()
+
+    def walk(o, depth=0):
+        if o is None or id(o) in seen or depth > 6:
+            return
+        seen.add(id(o))
+        h.update(type(o).__name__.encode())
+        for name in ('n_sample', 'n_reject'):
+            if hasattr(o, name):
+                h.update(('%s=%d;' % (name, int(getattr(o, name)))).encode())
+        pts = getattr(o, 'points', None)
+        if isinstance(pts, np.ndarray):
+            h.update(str(pts.shape).encode())
+            h.update(np.ascontiguousarray(pts).tobytes())
+        rng = getattr(o, 'rng', None)
+        if isinstance(rng, np.random.Generator):
+            h.update(json.dumps(rng.bit_generator.state, sort_keys=True, default=str).encode())
+        for name in ('outer_bound', 'cube', 'ellipsoid'):
+            walk(getattr(o, name, None), depth + 1)
+        for name in ('bounds', 'neural_bounds'):
+            for sub in getattr(o, name, None) or ():
+                walk(sub, depth + 1)
+        for pb in getattr(o, 'points_bounds', None) or ():
+            h.update(np.ascontiguousarray(pb).tobytes())
+
+    for b in s.bounds:
+        walk(b)
+    h.update(json.dumps(s.rng.bit_generator.state, sort_keys=True, default=str).encode())
+    for name in ('points', 'log_l', 'blobs'):
+        arrs = getattr(s, name, None)
+        if arrs is not None:
+            for a in arrs:
+                h.update(points_array(a).tobytes() if name == 'points' else np.ascontiguousarray(a).tobytes())
+    for name in ('shell_n', 'shell_n_sample', 'shell_n_eff', 'shell_log_l_min', 'shell_log_l', 'shell_log_v'):
+        if hasattr(s, name):
+            h.update(np.ascontiguousarray(getattr(s, name)).tobytes())
+    return h.hexdigest()
